@@ -13,6 +13,10 @@
 // under recursion-firewall modes off / shadow / enforce with budgets from 1 to
 // the default. The oracle is the packet log of the scripted servers: the
 // per-query count is the log delta until every detached job has ended.
+// Every topology is also run next to a configured `fallbackservers` pool (one
+// scripted open recursive server; pool.go): an over-budget tree must not be
+// rescued by the pool, the pool's packets count against the outbound budget,
+// and shadow == off includes the use made of the pool.
 // See DESIGN.md §4 C12 and README in this directory's FINDINGS/notes.
 package main
 
@@ -52,7 +56,8 @@ func main() {
 	r.Assume("restarts inside one request tree (parent-detection restart, retry without minimisation, descent through a delegation cached in mid-tree) are recognised in the packet log by behaviour only a restart explains (restart.go: the scripted authority is asked again after its referral was delivered; a longer name is asked where every attempt for the minimised one failed on the wire; a question of the client's type reaches the server only the cached delegation names); sdns has no counter for them. They are counted on stacks with ipv6access off only")
 	r.Assume("restart kinds: the outbound budgets of the shadow, enforce-small and enforce-mid stacks are drawn from [packets before the first post-restart packet, packets of the whole tree - 1] as observed on the firewall-off stack of the same topology (same seed, same index); the verdicts applied are the unchanged per-query ones")
 	r.Assume("fallback-pool stacks (pool.go): `fallbackservers` names one scripted open recursive server that answers every question (the namespace model's end-to-end answer, or a fixed marker record) and logs every packet in the same packet log as the authorities; packets it receives count as upstream transport attempts of the request tree (sdns's failover middleware debits them as outbound attempts), so they are part of the per-query packet count that is held against max_outbound_queries")
-	r.Assume("fallback-pool stacks run with ipv6access off: there is no optional (best-effort) work, every budget crossing a tree records in enforce mode is a refused REQUIRED debit; a tree that recorded one and is answered anything but SERVFAIL after the pool was asked the client's own question is reported (confirmed on a second fresh stack). A crossing of only the outbound budget on a query with packets after the reply is not judged (the refused debit may belong to an attempt that was still in flight)")
+	r.Assume("fallback-pool stacks run with prefetch off: an entry the cache learns from the pool is prefetch-due at once, every hit on it (also by an internal sub-query of a later request tree) queues a refresh, and a refresh is a request tree of its own with a budget of its own whose packets the packet log cannot tell from the client's tree; on every second topology the client queries of the pool stacks enter as raw packets (Server.ServeRaw on a transport job: the wire-born request path)")
+	r.Assume("fallback-pool stacks run with ipv6access off: there is no optional (best-effort) work, every budget crossing a tree records in enforce mode is a refused REQUIRED debit; a tree that recorded a crossed non-outbound budget (internal queries, a DNSSEC operation: only the synchronous resolution debits those) and is answered anything but SERVFAIL after the pool was asked the client's own question is reported (confirmed on a second fresh stack). A crossing of only the outbound budget is not judged this way (the refused debit may belong to a retry of an attempt that was still in flight when the pool answered); a pool attempt made although the outbound budget was spent shows as budget + 1 packets")
 	r.Assume("fallback-pool stacks: the non-outbound budget of enforce+pool/<dimension> is the value under which the shadow+pool tree of the same topology recorded that dimension as crossed (all other budgets default); the outbound budget of enforce+pool/outbound is a small draw or is placed at the hand-over observed on off+pool (packets logged before the pool was first asked the client's question: exactly that many, or one more). The verdicts applied are the per-query ones")
 	run := &runner{r: r}
 
@@ -197,6 +202,7 @@ func main() {
 		r.Require("pool/queries_answered_by_pool/"+m, int64(max(3, nTopo/24)))
 	}
 	r.Require("pool/control_ordinary_failure_uncrossed_tree_answered_by_pool", 2)
+	r.Require("pool/queries_wire_born", int64(nTopo))
 	r.Require("pool/outbound_budget_placed_exactly_at_handover", 3)
 	r.Require("pool/enforce_budget_spent_by_failing_primary_pool_attempt_refused", 2)
 	r.Require("pool/off_shadow_pairs_compared", int64(nTopo*2/3))
